@@ -1,6 +1,7 @@
 #!/bin/sh
 # tools/try_seed.sh <patch.diff> <prop> [tier] : apply a seeded change to /repo, run the check, undo the change
 P=$1; PROP=$2; TIER=${3:-quick}
+if [ -n "$(git -C /repo status --porcelain)" ]; then echo "/repo has uncommitted changes: refusing (try_seed resets the working tree)"; exit 7; fi
 cd /repo && git apply "$P" || { echo "patch does not apply"; exit 9; }
 cd /verif && ./check $PROP --tier $TIER --no-evidence 2>&1 | grep -E "VIOLATION|failed obligation|native contract|tier=" | head -${4:-6}
 cd /repo && git checkout -- . && git status --short | head -3
